@@ -7,3 +7,11 @@ claim("C01",
       "the comparison covers the whole table. The branchy arithmetic that combines the tables is not decided.",
       "Trusted: rustc's const evaluator and MIR; specs/tables/calendar_oracle.py (cross-checked against Python datetime on every run).",
       "DESIGN.md 5/C01")
+claim("C04",
+      "read-set / copy / who-may-write / call-direction / must-pass-through rules over MIR with def-use term reconstruction",
+      "Decides the shape clauses of C04 for every execution: ==, <, cmp, hash of DateTime read only the UTC field and delegate to derived NaiveDateTime impls; "
+      "zone conversions copy the UTC field; only the confirmed constructors build or assign a DateTime; from-local subtracts / to-local adds the offset down to "
+      "the NaiveTime operator with the day carry mapped to pred/succ; every getter, setter and formatter goes through overflowing_naive_local; every function that "
+      "re-resolves a modified wall clock filters against MIN_UTC/MAX_UTC; FixedOffset accepts exactly (-86400, 86400). Value-level identities of the round trips are not decided.",
+      "Trusted: MIR and type facts of rustc nightly; foreign TimeZone impls are outside the program analysed.",
+      "DESIGN.md 5/C04")
